@@ -21,17 +21,30 @@ for p in sorted(glob.glob(os.path.join(HERE, 'evidence', 'C*.json'))):
         out.append('\nExemptions used (one symbol, one reason each):\n')
         for e in cov['exemptions_used']:
             out.append('* `%s` %s — %s' % (e['rule'], e['instance'], e['reason']))
-out.append('\n## Appendix E — checker self-test corpus (mutants/*.json)\n')
-out.append('Every mutant compiles (clang -fsyntax-only of the touched unit) and is a change a developer could plausibly make; `tools/selftest.py` applies each to a scratch copy of the sources and requires the named rule to report it (KILLED) and every neutral edit to stay SILENT. The thorough tier of each check runs its share.\n')
-out.append('| id | property | expected rule(s) | change |\n|---|---|---|---|')
+out.append('\n## Appendix E — checker self-test corpus (mutants/*.json, seeded/, neutral_seeded/)\n')
+out.append('Every mutant compiles (clang -fsyntax-only of the touched unit) and is a change a developer could plausibly make; `tools/selftest.py` applies each entry to a scratch copy of the sources and requires the property\'s rules to report a mutant (KILLED, by the rule named where one is named) and to stay SILENT on every neutral entry. The thorough tier of each check runs its share. The entries themselves (id, description, edit) are in the files; the table counts them.\n')
 ms = []
 for p in sorted(glob.glob(os.path.join(HERE, 'mutants', '*.json'))):
-    ms += json.load(open(p))
-def key(m):
-    return (m.get('kind', 'mutant') != 'mutant', int(re.sub(r'\D', '', m['id']) or 0))
-for m in sorted(ms, key=key):
-    out.append('| %s | %s | %s | %s |' % (m['id'], ','.join(m['properties']), ', '.join(m['rules']) or ('(must stay silent)' if m.get('kind') == 'neutral' else ''), m['desc'].replace('|', '/')))
-out.append('\n%d mutants, %d neutral edits.\n' % (sum(1 for m in ms if m.get('kind', 'mutant') == 'mutant'), sum(1 for m in ms if m.get('kind') == 'neutral')))
+    for m in json.load(open(p)):
+        m['_file'] = os.path.basename(p)
+        ms.append(m)
+props = sorted({q for m in ms for q in m['properties']})
+out.append('| property | hand-written mutants (mNN) | hand-written neutral (nNN) | re-formulation mutants (hNN-m*) | re-formulation neutral (hNN-n* and blind) | seeded breaking changes | ')
+out.append('|---|---|---|---|---|---|')
+for q in props:
+    mine = [m for m in ms if q in m['properties']]
+    hw_m = sum(1 for m in mine if not m['_file'].startswith('h') and m.get('kind', 'mutant') == 'mutant')
+    hw_n = sum(1 for m in mine if not m['_file'].startswith('h') and m.get('kind') == 'neutral')
+    h_m = sum(1 for m in mine if m['_file'].startswith('h') and m.get('kind', 'mutant') == 'mutant')
+    h_n = sum(1 for m in mine if m['_file'].startswith('h') and m.get('kind') == 'neutral')
+    sd = len(glob.glob(os.path.join(HERE, 'seeded', q + '-*', 'patch.diff')))
+    out.append('| %s | %d | %d | %d | %d | %d |' % (q, hw_m, hw_n, h_m, h_n, sd))
+nn = {}
+for d in sorted(glob.glob(os.path.join(HERE, 'neutral_seeded', '*'))):
+    k = os.path.basename(d)[:2]
+    nn[k] = nn.get(k, 0) + len(glob.glob(os.path.join(d, 'patch*.diff')))
+out.append('\nIndependent behaviour-preserving refactorings (each checked against all 20 properties): round A (nsNN) %d, round B (nbNN) %d, round C (ncNN) %d.\n' % (nn.get('ns', 0), nn.get('nb', 0), nn.get('nc', 0)))
+out.append('%d mutants and %d neutral edits in mutants/*.json.\n' % (sum(1 for m in ms if m.get('kind', 'mutant') == 'mutant'), sum(1 for m in ms if m.get('kind') == 'neutral')))
 out.append('\n## Appendix F — independently seeded changes (seeded/*/meta.json)\n')
 out.append('Written by fresh sub-agents that saw only the property text and a scratch worktree; each confirmed by `tools/seedeval.py` (builds, 11 pinned tests pass, demo fails with / passes without the change) before being kept.\n')
 out.append('| id | property | files | first pass | now reported by |\n|---|---|---|---|---|')
@@ -40,7 +53,10 @@ for p in sorted(glob.glob(os.path.join(HERE, 'seeded', '*', 'meta.json'))):
     patch = open(os.path.join(os.path.dirname(p), 'patch.diff')).read()
     files = ', '.join(sorted(set(re.findall(r'^\+\+\+ b/src/(\S+)', patch, flags=re.M))))
     now = '; '.join('%s: %s' % (k, ', '.join(sorted({f.split(' [')[0] for f in v['failed']})) or ('exit %d' % v['exit'])) for k, v in sorted(m['caught_by'].items()))
-    out.append('| %s | %s | %s | %s | %s |' % (m['id'], m['property'], files, m.get('first_pass', '').replace('|', '/'), now or 'MISSED'))
+    fp = m.get('first_pass', '')
+    if isinstance(fp, dict):
+        fp = '%s %s' % (fp.get('status', ''), ', '.join(sorted({f.split(' [')[0] for f in fp.get('failed', [])})))
+    out.append('| %s | %s | %s | %s | %s |' % (m['id'], m['property'], files, str(fp).replace('|', '/'), now or 'MISSED'))
 text = '\n'.join(out) + '\n'
 p = os.path.join(HERE, 'DESIGN.md')
 s = open(p).read()
